@@ -426,8 +426,16 @@ def wrapped_class(config):
     return WProg
 
 
+def sync_actions(nc):
+    acts = c01.cleanup_actions(nc)
+    if nc >= 2:
+        # the most recent cleanup is registered with keyword arguments
+        acts["setUp"][-1] = ("cleanup_kw", acts["setUp"][-1][1])
+    return acts
+
+
 def sync_execute(nc, em, chooser):
-    config = pg.Config(actions=c01.cleanup_actions(nc), kinds=SYNC_KINDS, setup_pre_kinds=(pg.ERROR,), expect_mismatch=em)
+    config = pg.Config(actions=sync_actions(nc), kinds=SYNC_KINDS, setup_pre_kinds=(pg.ERROR,), expect_mismatch=em)
     ctx = pg.Ctx(config, chooser)
     case = pg.new_case(config, ctx)
     r1 = rec.Ext()
